@@ -1215,6 +1215,10 @@ class Interp:
             return {"textwrap.dedent": _textwrap.dedent, "inspect.cleandoc": _inspect.cleandoc, "textwrap.indent": _textwrap.indent}[name](*args, **kwargs)
         if name in ("dataclasses.field", "field"):
             return ("__field__", kwargs)
+        if name in ("pathlib.Path", "pathlib.PurePath", "pathlib.PurePosixPath") and all(isinstance(a, (str, PurePath)) for a in args) and not kwargs:
+            from pathlib import PurePosixPath
+
+            return PurePosixPath(*args)  # path *arithmetic* only: anything touching the file system goes through the virtual file system or is refused
         if name in ("collections.defaultdict", "defaultdict"):
             import collections
 
